@@ -51,6 +51,23 @@ pub fn cmd(args: &[String]) -> i32 {
             writeln!(out, "{}", b).expect("write");
             continue;
         }
+        if let Some(Value::Array(toks)) = b.get("csssyn") {
+            // a sheet of the parser model (MC_CssSyntax): tokens written with one blank between them into <style>;
+            // meta.css.author = the abstract sheet the model predicts.  Well formed: run 1 = the canonical text of
+            // the reference rules, run 2 = the sheet (kind variant); otherwise the sheet alone (kind total)
+            let text: String = toks.iter().filter_map(|t| t.as_str()).collect::<Vec<_>>().join(" ");
+            let doc = "<p class=\"x\" id=\"i\">ta <b>tb</b></p><div><b class=\"x\">tc</b> td</div>";
+            let page = |css: &str| format!("<html><head><style>{}</style></head><body>{}</body></html>", css, doc);
+            let cfgv = serde_json::json!({"deco": "rich", "ops": [["doccss"]]});
+            let mk = |html: String| serde_json::json!({"html": html, "w": 30, "cfg": cfgv.clone(), "route": "lines"});
+            let wf = b["wf"].as_bool().unwrap_or(false);
+            let mut r = crate::gen::Rng::new(1);
+            let runs = if wf { vec![mk(page(&crate::cssgen::sheet_text(&b["ref"], &mut r, &crate::cssgen::canonical()))), mk(page(&text))] } else { vec![mk(page(&text))] };
+            let case = serde_json::json!({"id": b["id"], "meta": {"kind": if wf { "variant" } else { "total" }, "src": "MC_CssSyntax",
+                                          "css": {"agent": [], "user": [], "author": b["pred"]}}, "runs": runs});
+            writeln!(out, "{}", case).expect("write");
+            continue;
+        }
         if let Some(Value::Array(toks)) = b.get("csstoks") {
             // a CSS token sequence (MC_CssTok): once as user / agent sheet (total), once inside <style> against the
             // same document without it (inert)
